@@ -783,7 +783,9 @@ class Context:
 
     def eval_value(self, v, model):
         """Evaluate an observation (possibly nested, possibly symbolic) under a model."""
-        from . import symbytes, symfloat
+        from . import symbytes, symfloat, symstr
+        if isinstance(v, symstr.SymStr):
+            return "".join(chr(self.eval_value(c, model)) for c in v._cps)
         if isinstance(v, SymInt):
             return model.eval(v.t, model_completion=True).as_signed_long()
         if isinstance(v, SymBool):
